@@ -4,6 +4,30 @@ namespace Tmv.Facts
 /-- const abci/types/result.go CodeTypeOK -/
 def abci_CodeTypeOK : Int := 0
 
+/-- has p2p/transport.go MultiplexTransport.upgrade -/
+def acc_incompatible_is_rejection : Bool := true
+
+/-- has p2p/transport.go MultiplexTransport.upgrade -/
+def acc_nodeinfo_exchange_is_rejection : Bool := true
+
+/-- has p2p/transport.go MultiplexTransport.upgrade -/
+def acc_nodeinfo_invalid_is_rejection : Bool := true
+
+/-- has p2p/switch.go Switch.acceptRoutine -/
+def acc_routine_continues_on_rejected : Bool := true
+
+/-- has p2p/switch.go Switch.acceptRoutine -/
+def acc_routine_panics_on_other : Bool := true
+
+/-- has p2p/transport.go MultiplexTransport.upgrade -/
+def acc_secretconn_is_rejection : Bool := true
+
+/-- has p2p/transport.go MultiplexTransport.acceptPeers -/
+def acc_upgrade_panic_is_rejection : Bool := true
+
+/-- has p2p/transport.go MultiplexTransport.upgrade -/
+def acc_upgrade_plain_error_returns : Bool := false
+
 /-- cond types/part_set.go PartSet.AddPart -/
 def addPart_index_guard : String := "part.Index >= ps.total"
 
@@ -40,8 +64,17 @@ def c01_finalize_step_guard : String := "cs.Height != height || cs.Step != cstyp
 /-- has consensus/state.go State.finalizeCommit -/
 def c01_finalize_validates : Bool := true
 
+/-- has blockchain/v0/reactor.go BlockchainReactor.poolRoutine -/
+def c01_handover_skipwal : Bool := true
+
+/-- cond consensus/state.go State.OnStart -/
+def c01_onstart_catchup : String := "cs.doWALCatchup"
+
 /-- has types/vote_set.go VoteSet.addVerifiedVote -/
 def c01_quorum_expr : Bool := true
+
+/-- cond consensus/reactor.go Reactor.SwitchToConsensus -/
+def c01_switch_skipwal : String := "skipWAL"
 
 /-- cond consensus/state.go State.tryFinalizeCommit -/
 def c01_try_finalize_needs_block : String := "!cs.ProposalBlock.HashesTo(blockID.Hash)"
@@ -140,7 +173,7 @@ def c05_catchup_strict_guard : Bool := true
 def c05_catchup_writes_missing_marker : Bool := true
 
 /-- order state/execution.go BlockExecutor.Commit -/
-def c05_commit_order : List String := ["Lock", "FlushAppConn", "CommitSync", "Update"]
+def c05_commit_order : List String := ["FlushAppConn", "Lock", "CommitSync", "Update"]
 
 /-- order state/execution.go ExecCommitBlock -/
 def c05_execCommit_order : List String := ["execBlockOnProxyApp", "CommitSync"]
@@ -238,6 +271,12 @@ def c06_proposal_budget_vals : Bool := true
 /-- order state/validation.go validateBlock -/
 def c06_validate_order : List String := ["ValidateBasic", "HashConsensusParams", "VerifyCommit", "HasAddress", "After", "MedianTime", "ByteSize"]
 
+/-- cond consensus/state.go State.voteTime -/
+def c06_voteTime_first : String := "cs.LockedBlock != nil"
+
+/-- cond consensus/state.go State.voteTime -/
+def c06_voteTime_second : String := "cs.ProposalBlock != nil"
+
 /-- const crypto/tmhash/hash.go TruncatedSize -/
 def c07_AddressSize : Int := 20
 
@@ -301,6 +340,12 @@ def c08_load_single_increments : Bool := true
 /-- has types/validator_set.go computeNewPriorities -/
 def c08_new_priority_penalty : Bool := true
 
+/-- has rpc/core/consensus.go Validators -/
+def c08_rpc_validators_from_memory : Bool := false
+
+/-- has rpc/core/consensus.go Validators -/
+def c08_rpc_validators_from_store : Bool := true
+
 /-- cond state/store.go dbStore.saveValidatorsInfo -/
 def c08_saveValidatorsInfo_stored_iff : String := "height == lastHeightChanged || height%valSetCheckpointInterval == 0"
 
@@ -330,6 +375,12 @@ def c09_skipNum : Int := 9
 
 /-- cond light/verifier.go ValidateTrustLevel -/
 def c09_trust_level_guard : String := "lvl.Numerator*3 < lvl.Denominator || lvl.Numerator > lvl.Denominator || lvl.Denominator == 0"
+
+/-- has types/part_set.go PartSet.HasHeader -/
+def c10_hasheader_equals : Bool := true
+
+/-- has types/part_set.go PartSetHeader.Equals -/
+def c10_header_equals_total_and_hash : Bool := true
 
 /-- has blockchain/v0/pool.go BlockPool.IsCaughtUp -/
 def c13_caughtup : Bool := true
@@ -865,6 +916,6 @@ def types_MaxBlockPartsCount : Int := 1601
 /-- const types/vote_set.go MaxVotesCount -/
 def types_MaxVotesCount : Int := 10000
 
-def factCount : Nat := 288
+def factCount : Nat := 305
 
 end Tmv.Facts
